@@ -643,7 +643,9 @@ func c31Run(c c31Case) (o verifkit.Outcome, verr error) {
 
 	derr := sto.Download(context.Background(), "foo", target, info, nil, nil, opts)
 	verr = w.judge("first call", target, derr, c.Cache == "hit", opts)
+	hs.mu.Lock()
 	firstReqs := len(hs.log)
+	hs.mu.Unlock()
 	if derr == nil {
 		labels["success"] = true
 	} else {
@@ -692,7 +694,9 @@ func c31Run(c c31Case) (o verifkit.Outcome, verr error) {
 		o.Extra = map[string]int64{"goroutine_settle_timeouts": 1}
 	}
 
-	log := hs.log
+	hs.mu.Lock()
+	log := append([]c31Req(nil), hs.log...)
+	hs.mu.Unlock()
 	if firstReqs >= 2 {
 		labels["retry"] = true
 	}
